@@ -15,14 +15,33 @@ def run(tier, seed, replay):
         return 2
     n = 150 if tier == 'quick' else 3000
     cases = []
+    d = qv.workdir('c16')
     for i in range(n):
         g = hist.rand_geom(rng, cbs=[9, 10, 11, 12, 12, 13, 16])
         # exercise block sizes above 512: sizes are multiples of 4096 when the cluster allows it
         ops = hist.gen_ops(rng, g, rng.randrange(3, 30), mix={'W': 40, 'R': 30, 'D': 10, 'F': 8, 'K': 4, 'S': 2, 'N': 2})
         cid = 'c16_%d' % i
+        image = None
+        if i % 3 == 2:
+            # independently built image with compressed clusters / backing: bounce-buffer reads and COW
+            import foreign
+            top = foreign.rand_desc(rng, with_backing=rng.random() < 0.3, allow_v2=False, cbs=[10, 11, 12, 12, 13], nclusters=rng.choice([8, 20]))
+            descs = [top] + ([foreign.backing_desc(rng, top)] if top.backing_file else [])
+            try:
+                paths, _ = foreign.write_images(d, cid, descs)
+                bsb = rng.choice([9, 10, 11, 12, 12])
+                bsb = min(bsb, top.cluster_bits)
+                while top.size % (1 << bsb) and bsb > 9:
+                    bsb -= 1
+                sb = max(bsb, 9)
+                g = hist.Geom(top.cluster_bits, top.refcount_order, top.size, bsb, (sb, 4 << sb), (sb, 4 << sb))
+                ops = hist.gen_ops(rng, g, rng.randrange(3, 30), mix={'W': 40, 'R': 40, 'D': 8, 'F': 8, 'K': 4})
+                ops = [o for o in ops if o[0] != 'O']
+                image = '\n'.join('image file ' + p for p in paths)
+            except ValueError:
+                image = None
         lines = [hist.op_line(o) for o in ops] + ['F', 'alignstat %d' % g.bs]
-        cases.append({'cid': cid, 'g': g, 'ops': ops, 'text': hist.case_text(cid, g, lines)})
-    d = qv.workdir('c16')
+        cases.append({'cid': cid, 'g': g, 'ops': ops, 'text': hist.case_text(cid, g, lines, image=image)})
     obs = seqrun.run_cases_text(d, [(c['cid'], c['text']) for c in cases])
     shutil.rmtree(d, ignore_errors=True)
     violations, known = [], []
